@@ -16,7 +16,7 @@ ASSUMPTIONS = ['P1, P2', 'addresses are enumerated (openpyxl regexes on symbolic
                'outside: whole-column/row references, 3-D references, rectangles beyond the bound']
 TRUSTED = ['fold oracles in props/c03.py']
 
-SHEETS = ['Data', 'My Sheet', "Bob's"]
+SHEETS = ['Data', 'My Sheet', "Bob's", 'Data2']     # 'Data2' extends the name 'Data' (prefix confusion)
 
 
 def q(name):
@@ -42,7 +42,7 @@ def spelling_obs(timeout):
         # qualified spellings from every sheet
         for ti, t in enumerate(SHEETS):
             for di, d in enumerate(dollars):
-                a = f'{s}!{"EFG"[ti]}{di + 1}'
+                a = f'{s}!{"EFGI"[ti]}{di + 1}'
                 cells[a] = f'={q(t)}!{d}'
                 probes.append((a, t))
     # chains crossing sheets: Data!H1 -> 'My Sheet'!H1 (unqualified B2 there) etc.
@@ -53,10 +53,15 @@ def spelling_obs(timeout):
     cells['Data!H3'] = "='My Sheet'!H3*100+B2"
     cells['My Sheet!H3'] = "='Bob''s'!H3*10+B2"
     cells["Bob's!H3"] = '=B2+Data!H2*0'
+    # a formula on 'Data' reaching a formula cell on 'Data2' (and back) whose references are unqualified / a range
+    cells['Data!H4'] = '=Data2!H4*1000+B2'
+    cells['Data2!H4'] = '=B2*10+SUM(B2:B3)+Data!H5'
+    cells['Data!H5'] = '=$B$2*0'
+    cells['Data2!B3'] = 0
     M = mk_sheets(cells, default='Data')
 
-    def h(a: int, b: int, c: int) -> bool:
-        vals = {'Data': a, 'My Sheet': b, "Bob's": c}
+    def h(a: int, b: int, c: int, d: int) -> bool:
+        vals = {'Data': a, 'My Sheet': b, "Bob's": c, 'Data2': d}
         for s, v in vals.items():
             setv(M, f'{s}!B2', v)
         ev = Evaluator(M)
@@ -65,9 +70,11 @@ def spelling_obs(timeout):
                 return False
         if not num_is(ev.evaluate('Data!H1'), c):
             return False
+        if not num_is(ev.evaluate('Data!H4'), (d * 10 + d) * 1000 + a) or not num_is(M.cells['Data2!H4'].value, d * 11):
+            return False
         return num_is(ev.evaluate('Data!H3'), (c * 10 + b) * 100 + a)
-    obs.append(Ob('c03.spellings', h, witness=[(1, 2, 3), (0, -5, 7)], timeout=timeout, cost=30, family='c03.spellings',
-                  bounds=f'3 sheets {SHEETS}; target B2 on each with a symbolic int; {len(probes)} probe cells = 4 $-variants x (unqualified + qualified to each sheet, '
+    obs.append(Ob('c03.spellings', h, witness=[(1, 2, 3, 4), (0, -5, 7, 9)], timeout=timeout, cost=30, family='c03.spellings',
+                  bounds=f'4 sheets {SHEETS} (one name extends another); target B2 on each with a symbolic int; {len(probes)} probe cells = 4 $-variants x (unqualified + qualified to each sheet, '
                          'quoted where needed) on each sheet; two chains crossing all three sheets with unqualified references on each',
                   show=lambda a, b, c: f'B2 values: Data={a}, My Sheet={b}, Bob\'s={c}'))
 
@@ -162,6 +169,33 @@ def rect_obs(maxr, maxc, timeout):
     return obs
 
 
+def wide_obs(timeout):
+    """A rectangle that crosses the Z -> AA column boundary: row-major order is by column index, not by column letters."""
+    obs = []
+    cols = ['Y', 'Z', 'AA', 'AB']
+    cells = {f'{c}{r}': 1 for r in (1, 2) for c in cols}
+    cells['A1'] = '=CONCAT(Y1:AB2)'
+    cells['A2'] = '=SUM(Y1:AB2)'
+    cells['A3'] = '=SUMPRODUCT(Y1:AB1,Y2:AB2)'
+    cells['A4'] = '=MATCH(7,Y1:Y2,0)'
+    M = mk(cells)
+
+    def h(v0: int, v1: int, v2: int, v3: int, w0: int, w1: int, w2: int, w3: int) -> bool:
+        top, bot = (v0, v1, v2, v3), (w0, w1, w2, w3)
+        for c, v, w in zip(cols, top, bot):
+            setv(M, f'Sheet1!{c}1', v)
+            setv(M, f'Sheet1!{c}2', w)
+        if M.ranges['Sheet1!Y1:AB2'].cells != [[f'Sheet1!{c}{r}' for c in cols] for r in (1, 2)]:
+            return False
+        ev = Evaluator(M)
+        return (text_is(ev.evaluate('Sheet1!A1'), ''.join(str(x) for x in top + bot)) and num_is(ev.evaluate('Sheet1!A2'), sum(top) + sum(bot))
+                and num_is(ev.evaluate('Sheet1!A3'), sum(a * b for a, b in zip(top, bot))))
+    obs.append(Ob('c03.rect[Y1:AB2 across Z/AA]', h, pre=lambda *v: all(0 <= x <= 9 for x in v), witness=[(1, 2, 3, 4, 5, 6, 7, 8)], timeout=timeout, cost=20, family='c03.rect',
+                  bounds='rectangle 2x4 from column Y to AB, cells in 0..9: XLRange.cells is the row-major matrix in column-index order; CONCAT (order-sensitive), SUM, SUMPRODUCT of its rows',
+                  show=lambda *v: f'Y1:AB1={v[:4]!r} Y2:AB2={v[4:]!r}'))
+    return obs
+
+
 def gap_obs(timeout, thorough):
     obs = []
     N = 130
@@ -233,6 +267,7 @@ def build(tier, seed):
     thorough = tier == 'thorough'
     obs = spelling_obs(300)
     obs += rect_obs(3, 3, 900 if thorough else 300) if thorough else rect_obs(2, 3, 300)
+    obs += wide_obs(300)
     obs += gap_obs(1800 if thorough else 400, thorough)
     obs += name_obs(300)
     return obs
